@@ -30,12 +30,13 @@ def check(run):
         return run.finish(trusted=TRUSTED)
     cases = [(k, c) for k, b, c in C.opcode_position_codes()]
     if run.tier != "thorough":
-        cases = [kc for i, kc in enumerate(cases) if i % 7 in (0, 2, 4, 5) or i % 7 == (i // 7) % 7]
+        cases = [kc for i, kc in enumerate(cases) if kc[0] in ("alone", "middle", "target", "condition", "second-operand") or i % 9 == (i // 9) % 9]
     n = 600 if run.tier == "thorough" else 120
     for _ in range(n):
         cases.append(("structured", C.gen_code(rng)))
         ln = rng.choice([1, 2, 3, 5, 8, 13, 21, 40])
         cases.append(("random-bytes", bytes(rng.randrange(256) for _ in range(ln))))
+    cases += C.systematic_codes()
     cases.append(("exp", bytes.fromhex("6003600a0a56")))
     cases.append(("exp-symbolic", bytes.fromhex("0a565b00")))
     cases.append(("mulmod-symbolic", bytes.fromhex("09565b00")))
